@@ -32,6 +32,8 @@ def op? (s : Sexp) : Option Op :=
     | some c, some k => some (Op.delete t c k)
     | _, _ => none
   | .list [.atom "reopen"] => some Op.reopen
+  | .list [.atom "vacuum"] => some Op.vacuum
+  | .list [.atom "compact", .atom t] => some (Op.compact t)
   | _ => none
 
 def recStr : Rec → String
@@ -124,7 +126,7 @@ def answer (lineIn : String) : List String :=
       | .error _ => ["bad-model", "E"]
       | .ok v0 =>
         let bootSteps := recoverSteps Disk.empty v0
-        let s0 : State := ⟨Disk.empty.applyAll bootSteps, v0⟩
+        let s0 : State := { disk := Disk.empty.applyAll bootSteps, mem := v0 }
         let first := [s!"S -1 {";".intercalate (bootSteps.map stepStr)}"] ++
           crashLines (-1) Disk.empty bootSteps none (abs s0.disk s0.mem)
         let rec go (s : State) (i : Nat) : List Op → List String
